@@ -6,6 +6,7 @@ From FFS Require Import Base.Res Base.Bytes Abi.Types Abi.Spec Abi.ModelTypes.
 From FFS Require Import Abi.DecModel Abi.DecSpec Abi.SerModel Abi.SerSpec.
 From FFS Require Import Abi.DecProofs Abi.DecProofs2 Abi.DecProofs3 Abi.DecProofs4.
 From FFS Require Import Abi.Render Abi.SerProofs Abi.SerProofs2 Abi.SerProofs3.
+From FFS Require Import Abi.InputModel Abi.EncProofs3 Abi.SerRoundTrip.
 Import ListNotations.
 Local Open Scope Z_scope.
 
@@ -119,6 +120,35 @@ Theorem C03_number_if_fits :
 Proof. exact number_if_fits_serialized. Qed.
 Print Assumptions C03_number_if_fits.
 
+(* 7. JSON round trip.  In the object and flat-array formatting modes, with every integer rendering
+      (base-10 string, 0x-hex string, JSON number, number-if-fits), the hexadecimal byte renderings (plain
+      and 0x; base64 is not an input format) and every address rendering (none, 0x, plain, checksum):
+      serialising the tree of a well-typed value and handing the document back to the input walk
+      (ParseJSON / EncodeABIDataJSON: b-c02's model of inputparsing.go; [ext_of j] is what encoding/json
+      returns for the document it wrote, numbers as json.Number) encodes to exactly the specification
+      encoding of the value - the original bytes.  [bifs] is ethtypes.BigIntegerFromString (external to
+      pkg/abi, property C19's subject) with the two laws the round trip uses: it reads back the canonical
+      decimal text and the (signed) 0x-hex text of every integer (for the executable model of that
+      function these are C02_decimal_and_hex_text_exact up to the digit-list form of the renderings).
+      Guards: [ser_ok] (tree as the type parser builds it, no fixed-point, distinct effective member
+      names in object mode), no T[0], tuples of at most 1024 members ([widths_ok]: strconv.Itoa and the
+      serializer's default member name agree there by computation), C02's size guard. *)
+Theorem C03_json_roundtrip :
+  forall (H : bytes -> bytes), (forall x, length (H x) = 32%nat) ->
+  forall (fs : bfloat -> jv) (s : serializer) (bifs : bytes -> res Z),
+    (forall z, bifs (Z_dec z) = Ok z) ->
+    (forall z, bifs ((if z <? 0 then [x2d] else []) ++ x30 :: x78 :: N_hex (Z.abs_N z))%list = Ok z) ->
+    ts s = FormatAsFlatArrays \/ ts s = FormatAsObjects ->
+    bs s <> Base64ByteSerializer ->
+  forall (children : list tcomp) (v : val),
+    let c := root_of children in
+    ser_ok s c = true -> widths_ok c = true -> tc_wf c = true -> tc_no_zero_len c = true ->
+    well_typed (ty_of c) v = true -> weight_ok v ->
+    exists j, SerializeJSON H fs NumericDefaultNameGenerator s (cv_of c v) = Ok j /\
+              EncodeABIDataValues bifs children (ext_of j) = Ok (enc (ty_of c) v).
+Proof. exact json_roundtrip. Qed.
+Print Assumptions C03_json_roundtrip.
+
 (* non-vacuity: a dynamic tuple inside a fixed array next to a string, named and unnamed members,
    decoded after a selector and before trailing bytes *)
 Example C03_decode_nonvacuous :
@@ -153,3 +183,37 @@ Example C03_serialize_nonvacuous :
   ser_ok s c = true /\ well_typed (ty_of c) v = true /\
   exists j, SerializeJSON H (fun _ => JNull) NumericDefaultNameGenerator s (cv_of c v) = Ok j /\ denotes H s c v j = true.
 Proof. cbv zeta. split; [vm_compute; reflexivity|]. split; [vm_compute; reflexivity|]. eexists. split; vm_compute; reflexivity. Qed.
+
+(* non-vacuity of the round trip: the conclusion holds by computation for the executable model of
+   ethtypes.BigIntegerFromString in object mode (0x-hex integers, 0x-hex bytes, checksum addresses; a
+   named, an unnamed and an index-named member, negative integers) and in flat-array mode (number-if-fits
+   on both sides of the threshold), and that function satisfies the two laws on sample integers *)
+Example C03_json_roundtrip_nonvacuous :
+  let H := fun _ : bytes => repeat x00 32 in
+  let s1 := {| ts := FormatAsObjects; is_ := HexIntSerializer0xPrefix;
+               bs := HexByteSerializer0xPrefix; ad := Some ChecksumAddrSerializer |} in
+  let s2 := {| ts := FormatAsFlatArrays; is_ := NumberIfFitsOrBase10StringIntSerializer;
+               bs := HexByteSerializer; ad := None |} in
+  let children := [TCElem EUInt [x36; x34] 64 0 [x61]; TCElem EAddress [] 160 0 [];
+                   TCDynArr (TCElem EInt [x36; x34] 64 0 [x30; x78]) [x30; x78];
+                   TCTuple [TCElem EString [] 0 0 [x73]; TCElem EBytes [] 0 0 []] [x74]] in
+  let c := root_of children in
+  let v := VList [VNum 9007199254740992; VNum 255; VList [VNum (-1); VNum 9007199254740991];
+                  VList [VBytes [x68; x69]; VBytes [x00; xff]]] in
+  ser_ok s1 c = true /\ ser_ok s2 c = true /\ widths_ok c = true /\ tc_wf c = true /\ tc_no_zero_len c = true /\
+  well_typed (ty_of c) v = true /\
+  (exists j, SerializeJSON H (fun _ => JNull) NumericDefaultNameGenerator s1 (cv_of c v) = Ok j /\
+             EncodeABIDataValues BigIntegerFromString children (ext_of j) = Ok (enc (ty_of c) v)) /\
+  (exists j, SerializeJSON H (fun _ => JNull) NumericDefaultNameGenerator s2 (cv_of c v) = Ok j /\
+             EncodeABIDataValues BigIntegerFromString children (ext_of j) = Ok (enc (ty_of c) v)) /\
+  forallb (fun z => match BigIntegerFromString (Z_dec z),
+                          BigIntegerFromString ((if z <? 0 then [x2d] else []) ++ x30 :: x78 :: N_hex (Z.abs_N z))%list with
+                    | Ok a, Ok b => (a =? z) && (b =? z)
+                    | _, _ => false
+                    end) [0; 1; -1; 255; -256; 2 ^ 53; 2 ^ 255; - 2 ^ 255; 2 ^ 256 - 1; 10 ^ 30] = true.
+Proof.
+  cbv zeta. repeat (split; [vm_compute; reflexivity|]).
+  split; [eexists; split; vm_compute; reflexivity|].
+  split; [eexists; split; vm_compute; reflexivity|].
+  vm_compute. reflexivity.
+Qed.
